@@ -3,7 +3,16 @@
 so that they can be reviewed and committed as known/C17_histories.json.  Each history was looked at before being listed
 (DESIGN.md, C17): all of them are instances of F13 (placeholder created in new/cur) or F14 (new copy written next to its original).
 
-  pin_histories.py            print the table as JSON on stdout
+  pin_histories.py            print the table of the single-preemption sweep (known/C17_histories.json) as JSON on stdout
+  pin_histories.py sched [budget] [seeds]
+                              the same for the schedule families of tools/c17sched.py (known/C17_sched_histories.json): EXACT histories
+                              of the families that are enumerated completely, history SHAPES harvested from them and from the sampled
+                              families under the given seeds (default: every sample universe, 0 .. SAMPLE_UNIVERSES-1, i.e. every
+                              schedule any VERIF_SEED can draw).  A class is PROPOSED by c17sched.review_class (F13 / F14
+                              as above for every preempted party; F31: a preempted flag party and a preempted copying party, one message
+                              duplicated (and another lost), no stray; F32: rules matching every file, a copying party preempted with its
+                              copy in flight, a message lost and only short strays) and only for histories the parties model reproduces;
+                              everything else is printed on stderr as NOT LISTED and stays a violation.
 """
 import concurrent.futures as cf
 import json
@@ -14,7 +23,41 @@ import vlib, proc            # noqa: E402
 from props import c17        # noqa: E402
 
 
+def sched_main(argv):
+    import c17sched as cs
+    budget = int(argv[0]) if argv else cs.BUDGET
+    seeds = [int(x) for x in argv[1].split(',')] if len(argv) > 1 else list(range(cs.SAMPLE_UNIVERSES))
+    sc = vlib.Scratch()
+    tools = proc.Tools(sc)
+    exact, shapes = {}, {}
+    for n, seed in enumerate(seeds):
+        only = None if n == 0 else ('three-switches', 'three-parties', 'fine-grained')
+        fam, hist, done, wall, nproc = cs.sweep(tools, sc, seed, budget, only=only)
+        sys.stderr.write('seed %d: %d schedules, %d distinct histories, %.0f s\n' % (seed, done, len(hist), wall))
+        for (family, sig, shape, has_probs, agrees), g in sorted(hist.items(), key=lambda kv: str(kv[0])):
+            if not has_probs or not agrees:
+                sys.stderr.write('NOT LISTED (%s): %s x%d %s\n' % ('the model disagrees' if not agrees else 'no wrong tree', family, g['n'],
+                                                                 g['example'].get('model_disagrees', [])[:2]))
+                continue
+            rs, ps, vs = shape.split(' || ')
+            cls = cs.review_class(rs, ps.split(','), [v for v in vs.split(',') if v])
+            if cls is None:
+                sys.stderr.write('NOT LISTED (matches no pinned finding): %s %s x%d e.g. %s\n' % (family, sig, g['n'], g['example']['schedule']))
+                continue
+            if family in cs.EXHAUSTIVE:
+                exact[sig] = cls
+            # the shape: rule shape, what is wrong, and ONE preempted (kind, phase) pair of those the class is about
+            pl = [t for t in ps.split(',') if cls == 'name-reuse-unlink' or t != 'stale-unlink']
+            for v in cs.essential_victims(cls, [v for v in vs.split(',') if v]):
+                shapes[cs.shape_key(rs, pl, [v])] = cls
+    minimal = shapes
+    json.dump({'exact': exact, 'shapes': minimal}, sys.stdout, indent=1, sort_keys=True)
+    sys.stdout.write('\n')
+
+
 def main():
+    if len(sys.argv) > 1 and sys.argv[1] == 'sched':
+        return sched_main(sys.argv[2:])
     sc = vlib.Scratch()
     tools = proc.Tools(sc)
     pairs = [(a, b) for a in c17.A_KINDS for b in c17.B_KINDS]
